@@ -13,12 +13,6 @@ import (
 // ---------------------------------------------------------------------------------------
 // G1: one compiler
 
-type c33HCall struct {
-	fn   *ssa.Function
-	call *ssa.Call
-	fam  *c33Fam
-}
-
 func (e *c33) eachInstr(fns []*ssa.Function, f func(fn *ssa.Function, in ssa.Instruction)) {
 	for _, fn := range fns {
 		for _, b := range fn.Blocks {
